@@ -260,7 +260,7 @@ def scn_activity(T, case):
 
 # ------------------------------------------------------------------------------------ activity flags as the evaluator sees them
 def cases_activity_calls(tier):
-    for omf, cmf in (([-1], [0]), ([0], [-1]), ([0], [0]), (None, None), ([-1], [-1])):
+    for omf, cmf in (([-1], [0]), ([0], [-1]), ([0], [0]), (None, None), ([-1], [-1]), ([0], None), (None, [0])):
         for zero_cfg in (False, True):
             yield "flt=%s,%s/configured-zero=%s" % (omf, cmf, zero_cfg), {"omf": omf, "cmf": cmf, "zero_cfg": zero_cfg}
 
@@ -306,6 +306,18 @@ def scn_activity_calls(T, case):
                 act = bool(flags[0, r])
                 T.prove("C06.calls.split_gradient.every_zero_weight_%s_entry_is_flagged_inactive" % name, T.implies(iszero, not act))
                 T.prove("C06.calls.split_gradient.%s_entries_inactive_only_if_weight_is_zero" % name, T.implies(not act, iszero) if not act else True)
+
+
+    # the per-realization summary `context.active` (what an evaluator looks at that does not distinguish functions): a realization is
+    # flagged inactive only if NO function needs it, i.e. the weights in force of every objective and constraint are zero for it
+    for tag, ctx, wo, wc in (("function_request", fctx, cfgw, cfgw if K else None), ("split_gradient", gctx, in_force(case["omf"]), in_force(case["cmf"]) if K else None)):
+        if ctx.active is None:
+            continue
+        for r in range(R):
+            zo = T.same(wo[r], 0.0 * pos[0]) if T.symbolic else float(wo[r]) == 0.0
+            zc = True if wc is None else (T.same(wc[r], 0.0 * pos[0]) if T.symbolic else float(wc[r]) == 0.0)
+            if not bool(ctx.active[r]):
+                T.prove("C06.calls.%s.realization_flagged_inactive_only_if_no_function_needs_it" % tag, T.all([zo, zc]))
 
 
 # ------------------------------------------------------------------------------------ inertness (relational)
@@ -383,11 +395,44 @@ def scn_inert(T, case):
                 T.prove(key, T.same(ra.gradients.objectives, rb.gradients.objectives) & T.same(ra.gradients.weighted_objective, rb.gradients.weighted_objective), "gradients")
 
 
+# ------------------------------------------------------------------------------------ user-domain results (shared contract)
+def cases_user_results(tier):
+    from contracts import backtransform
+
+    return backtransform.cases(tier)
+
+
+def scn_user_results(T, case):
+    from contracts import backtransform
+
+    backtransform.scenario(T, case, "C06")
+
+
+# ------------------------------------------------------------------------------------ values reported next to a built-in filter
+def cases_chain(tier):
+    from contracts import integration
+
+    for cid, c in integration.cases_filter_chain(("sort-constraint", "cvar-constraint", "sort-objective"), tier):
+        if c["variant"] in ("plain", "second-call") and c["bounds"] == "upper":
+            yield cid, c
+
+
+def scn_chain(T, case):
+    """'Every value in the reported results is the value the evaluator returned for the row with that label' also when a built-in
+    realization filter has looked at the values: the filter works on copies, the reported per-realization values are untouched
+    (the integration scenario of C04/C05 under this property's prefix)."""
+    from contracts import integration
+
+    integration.scn_filter_chain(T, case, "C06")
+
+
 SCENARIOS = [
     Scenario("requests_labels_values_frame", scn_requests, cases_requests, {"quick": 3, "thorough": 20}),
     Scenario("activity_flags", scn_activity, cases_activity, {"quick": 10, "thorough": 60}),
     Scenario("activity_flags_at_the_evaluator", scn_activity_calls, cases_activity_calls, {"quick": 5, "thorough": 40}),
     Scenario("inertness", scn_inert, cases_inert, {"quick": 5, "thorough": 40}),
+    Scenario("user_domain_results", scn_user_results, cases_user_results, {"quick": 3, "thorough": 20}),
+    Scenario("values_reported_next_to_a_built_in_filter", scn_chain, cases_chain, {"quick": 2, "thorough": 10}),
 ]
 
 MANIFEST = {
